@@ -357,3 +357,57 @@ def free_slot_after_resize(F, table_path, pot):
             else:
                 out.append((f, x.get("ln"), "ok", "a free slot remains after the resize in all %d small states (count < capacity <= %d)" % (n_states, caps[-1])))
     return out
+
+
+def free_slot_after_insert(F, table_path, pot):
+    """For every `if <cond> { .. grow() .. }` in the insertion functions of <table>: in every small state (count < capacity)
+    in which the condition says "do not grow", the table still has a free slot AFTER the pending insertion
+    (count + 1 < capacity). The condition is evaluated on the source expression (f32 arithmetic emulated, helper
+    functions and constants followed); whether it sees the count before or after the increment is read from the
+    position of `self.count += 1` in the same function. -> list of (fn, ln, ok|bad|undecided, message)"""
+    out = []
+    grow_name = table_path + "::grow"
+    caps = [2, 4, 8, 16, 32, 64] if pot else list(range(1, 41))
+    for f in F.fns:
+        if not f.hir or f.is_closure or not (f.short.startswith(table_path + "::")) or f.short in (grow_name,):
+            continue
+        incs = [x.get("ln") for x in hir_walk(f.hir["body"]) if x.get("k") == "assign_op" and str(x.get("op", "")).startswith("Add")
+                and hir_strip(x["l"]).get("k") == "field" and hir_strip(x["l"])["name"] == "count"]
+        for x in hir_walk(f.hir["body"]):
+            if x.get("k") != "if":
+                continue
+            if not any(y.get("k") in ("mcall", "call") and any(n == grow_name for n in hir_callee(y)) for y in hir_walk(x["then"])):
+                continue
+            # the innermost test decides
+            if any(y is not x and y.get("k") == "if" and any(z.get("k") in ("mcall", "call") and any(n == grow_name for n in hir_callee(z))
+                                                                 for z in hir_walk(y["then"])) for y in hir_walk(x["then"])):
+                continue
+            after_inc = any(l is not None and l < (x.get("ln") or 0) for l in incs)
+            bad_at = None
+            n = 0
+            try:
+                for c in caps:
+                    for c0 in range(0, c):
+                        seen = c0 + 1 if after_inc else c0
+                        fields = {"count": seen, "capacity": c}
+                        try:
+                            grow = bool(FEv(F, f, {}, fields).ev(x["cond"]))
+                        except bs.Overflow:
+                            continue
+                        n += 1
+                        if not grow and not (c0 + 1 < c):
+                            bad_at = (c0, c)
+                            break
+                    if bad_at:
+                        break
+            except bs.Unknown as u:
+                out.append((f, x.get("ln"), "undecided", "growth condition not understood: %s" % u))
+                continue
+            if bad_at:
+                out.append((f, x.get("ln"), "bad",
+                            "%s does not grow a table of capacity %d that holds %d items before inserting one more: the insertion fills the "
+                            "last free slot, and a lookup of a handle/key that is not in the table then probes forever" % (f.name, bad_at[1], bad_at[0])))
+            else:
+                out.append((f, x.get("ln"), "ok", "whenever the growth test (seeing the count %s the increment) declines, a free slot remains after "
+                            "the insertion: %d small states" % ("after" if after_inc else "before", n)))
+    return out
